@@ -205,3 +205,26 @@ def run(cfg, fault_at=None, resume_from=None, file_path=None, keep_points=False,
 
 def summary(r):
     return {"result": r.result, "history": r.history}
+
+
+def payload_equal(b1, b2):
+    """Checkpoint payloads are equal if their bytes are, or (torch pickles embed storage identifiers that differ
+    between otherwise identical runs) if the unpickled contents are."""
+    if b1 == b2:
+        return True
+    s1, s2 = pickle.loads(b1), pickle.loads(b2)
+    if set(s1) != set(s2):
+        return False
+    for k in s1:
+        if k == "samples":
+            if diff(snapshot_samples(s1[k]), snapshot_samples(s2[k])):
+                return False
+        elif k == "history":
+            if diff(snapshot_history(s1[k]), snapshot_history(s2[k])):
+                return False
+        elif k == "rng_state":
+            if repr(s1[k]) != repr(s2[k]):
+                return False
+        elif s1[k] != s2[k]:
+            return False
+    return True
